@@ -55,6 +55,15 @@ def probe_portfolio(spec):
         portf = mk_portfolio(spec)
         tg = mk_grid(spec['grid'])
         prices = mk_prices(spec)
+        if opts.get('warmup'):
+            # an earlier use of the same objects (other prices): a later set-up must not depend on it
+            try:
+                pw = {k: v[::-1] * 0.5 + 1.0 for k, v in prices.items()}
+                op0 = portf.setup_optim_problem(pw, tg)
+                if opts['warmup'] == 'solve':
+                    op0.optimize()
+            except Exception as e:
+                o['warmup_error'] = repr(e)[:200]
         op = portf.setup_optim_problem(prices, tg)
     except Exception as e:
         return {'status': 'setup_error', 'error': repr(e)[:300]}
